@@ -929,6 +929,46 @@ def r44(text):
     return out, 1 + n1 + n2 + n3
 
 
+@rule("R45", "`tokio::task::spawn_blocking(move || -> T { B }).await.unwrap_or_else(|e: JoinError| Err(..))` in tail position of an `async fn` "
+             "(dir.rs FsDir::get) -> `{ B }`: the closure's body runs to completion on another thread and its value is the function's value, so "
+             "`return` / `?` inside B return that value either way (a panic inside B - JoinError - is outside the model); `async fn` itself is "
+             "its body (no other `.await`).  With it: `unsafe { CStr::from_bytes_with_nul_unchecked(X) }` -> `cstr_from_bytes_with_nul_unchecked(X)` "
+             "(prelude function whose PRECONDITION is the safety contract of the unsafe call: one NUL, at the end - so the `unsafe` block's "
+             "justification becomes a proof obligation); `&b\"..\"[..]` -> `b\"..\"`, `&buf[..]` -> `buf.as_slice()` (full-range reborrows); "
+             "`super::should_gzip(` -> `should_gzip(`; `.as_bytes()` on the `&str` path dropped as in R17; ghost log of openat calls: "
+             "`self.open_file(X)` -> `self.open_file(X, opens)`.")
+def r45(text):
+    m = re.search(r"\btokio::task::spawn_blocking\(\s*move\s*\|\|\s*->\s*Result<Node,\s*Error>\s*\{", text)
+    if not m:
+        return text, 0
+    b_open = m.end() - 1
+    toks = tokenize(text[b_open:])
+    b_close = b_open + toks[match_close(toks, 0)].start
+    tail = re.sub(r"\s+", " ", text[b_close + 1:]).strip()
+    if tail != ") .await .unwrap_or_else(|e: tokio::task::JoinError| Err(Error::new(ErrorKind::Other, e))) }" or text.count(".await") != 1:
+        return text, 0
+    head = text[:m.start()]
+    inner = text[b_open:b_close + 1]
+    out = head + "\n" * text[m.start():b_open].count("\n") + inner + "\n" * text[b_close + 1:].count("\n") + "}"
+    out, n1 = re.subn(r"unsafe\s*\{\s*CStr::from_bytes_with_nul_unchecked\(([^()]*(?:\([^()]*\))?[^()]*)\)\s*\}", r"cstr_from_bytes_with_nul_unchecked(\1)", out)
+    out, n2 = re.subn(r'&(b"[^"]*")\[\.\.\]', r"\1", out)
+    out, n3 = re.subn(r"&(\w+)\[\.\.\]", r"\1.as_slice()", out)
+    out, n4 = re.subn(r"\bsuper::should_gzip\(", "should_gzip(", out)
+    out, n5 = re.subn(r"\bpath\.as_bytes\(\)", "path", out)
+    n6, pos = 0, 0
+    while True:
+        mm = re.search(r"\bself\.open_file\(", out[pos:])
+        if not mm:
+            break
+        o = pos + mm.end() - 1
+        tk = tokenize(out[o:])
+        c = o + tk[match_close(tk, 0)].start
+        out = out[:c].rstrip().rstrip(",") + ", opens" + out[c:]
+        pos = c
+        n6 += 1
+    return out, 1 + n1 + n2 + n3 + n4 + n5 + n6
+
+
 @rule("R36", "Function-local `static NAME: usize = <literal>;` -> `const NAME: usize = <literal>;` (an immutable integer static and a const "
              "of the same value are interchangeable in expressions; Verus has no function-local statics).")
 def r36(text):
@@ -979,6 +1019,13 @@ def r35(text):
         text = text[:rs] + rep + text[e:]
         n += 1
     return text, n
+
+
+@rule("T_fsdir", "Type-level (dir.rs FsDir): `std::os::unix::io::RawFd` -> `i32` (its definition on Unix); fields made `pub`.")
+def t_fsdir(text):
+    t, n = _subn([(r"\bstd::os::unix::io::RawFd\b", "i32")], text)
+    t, n2 = re.subn(r"(?m)^(\s+)(?!pub\b)(\w+\s*:)", r"\1pub \2", t)
+    return t, n + n2
 
 
 @rule("T_node", "Type-level (dir.rs Node): `std::fs::File` / `std::fs::Metadata` fields -> opaque `FileStub` / `MetaStub` "
